@@ -68,6 +68,27 @@ def gen(rng, tier):
             t2[prim] = list(perm)
             tj = json.dumps(tdgen.types_json(t2, [("name", "string")]))
             cases.append(Case("td.encode_type %s %s" % (hx(tj), hx(prim)), tags=("perm-random",), nontrivial=has_dep(t2, prim)))
+    # deep nesting (value depth grows faster than value size)
+    for depth in [1, 2, 5, 6, 7, 8, 12, 20, 40]:
+        types = {"T%d" % i: [("a", "T%d" % (i - 1))] for i in range(depth, 0, -1)}
+        types["T0"] = [("a", "string")]
+        v = "leaf"
+        for _ in range(depth + 1):
+            v = {"a": v}
+        doc = {"types": tdgen.types_json(types, [("name", "string")]), "primaryType": "T%d" % depth, "domain": {"name": "x"}, "message": v}
+        cases.append(Case("td.hash " + hx(tdgen.dumps(doc)), tags=("deep-structs", "depth:%d" % depth)))
+        t = "uint8" + "[]" * depth
+        v = 7
+        for _ in range(depth):
+            v = [v]
+        doc = {"types": tdgen.types_json({"P": [("v", t)]}, [("name", "string")]), "primaryType": "P", "domain": {"name": "x"}, "message": {"v": v}}
+        cases.append(Case("td.hash " + hx(tdgen.dumps(doc)), tags=("deep-arrays", "depth:%d" % depth)))
+        rec = {"P": [("kids", "P[]")]}
+        v = {"kids": []}
+        for _ in range(depth):
+            v = {"kids": [v, {"kids": []}]}
+        doc = {"types": tdgen.types_json(rec, [("name", "string")]), "primaryType": "P", "domain": {"name": "x"}, "message": v}
+        cases.append(Case("td.hash " + hx(tdgen.dumps(doc)), tags=("deep-recursive", "depth:%d" % depth)))
     # member type grammar
     for t in tdgen.ALL_ATOMS:
         cases.append(Case("td.kind " + hx(t), tags=("kind-atom",), nontrivial=False))
